@@ -447,12 +447,8 @@ class DistributionController(Component, Controller):
             for x in self.power_network.sections
             if x.state == SectionState.DISCONNECTED
         ]
-        # Loop disconnected sections
-        for section in disconnected_sections:
-            if sum(x.failed for x in section.lines) == 0:
-                section.connect_manually()
-                if section in self.failed_sections:
-                    self.failed_sections.remove(section)
+        # Sections with failed lines are flagged first, so that a repaired
+        # section does not reconnect to a section with a failed line
         # Loop connected sections
         for section in connected_sections:
             if sum(x.failed for x in section.lines) > 0:
@@ -462,6 +458,12 @@ class DistributionController(Component, Controller):
                 self.sectioning_time = self.manual_sectioning_time
                 for line in section.lines:
                     line.remaining_outage_time += self.sectioning_time
+        # Loop disconnected sections
+        for section in disconnected_sections:
+            if sum(x.failed for x in section.lines) == 0:
+                section.connect_manually()
+                if section in self.failed_sections:
+                    self.failed_sections.remove(section)
 
     def run_manual_control_loop(self, curr_time: Time, dt: Time):
         """
